@@ -354,7 +354,7 @@ def free_groups(prefix, props, cfg="C64", tier="quick"):
                         defs=["VERIF_FN=" + f, "VERIF_T=" + T, "VERIF_ZERO_EXPR=" + expr] + (["VERIF_FREE_MASKED"] if masked else []),
                         contracts=["contracts/c_free.h"], drop_unused=True, unwind=260, timeout=900,
                         expect_classes=["postcondition", "assigns"]))
-    n = 64 if tier == "quick" else 1024
+    n = 64 if tier == "quick" else 256    # (1024 exhausted the solver memory)
     gs.append(Group("%s.ascon_clean.fallback%d" % (prefix, n), props, "harness/h_free.c", "h_free", [CLEAN], cfg=cfg,
                     enforce="ascon_clean", defs=["VERIF_FREE_CLEAN", "VERIF_CLEAN_MAX=%d" % n], contracts=["contracts/c_free.h"],
                     unwind=n + 2, kind="bounded", timeout=1800,
